@@ -24,8 +24,12 @@ def is_panic_call(t):
 
 
 class Analysis:
-    def __init__(self, F):
+    def __init__(self, F, mode="huge"):
+        """mode "huge": raw = may be near usize::MAX (x >> w, x / n with trusted w, n are no longer raw);
+        mode "unvalidated": raw = not yet compared with anything -- also survives >> and / (an out-of-range rank or index stays
+        out of range after scaling); used for the `unwrap` sink only."""
         self.F = F
+        self.mode = mode
         self.raw_params = {}      # fn -> set(param index)
         self.origin = {}          # (fn, idx) -> (caller fn, where, arg term)
         self._ub_guard = set()
@@ -79,6 +83,8 @@ class Analysis:
             op, x, y = t[1], t[2], t[3]
             rx = self.israw(b, R, x, memo, depth + 1)
             ry = self.israw(b, R, y, memo, depth + 1)
+            if op in ("Div", "Shr") and self.mode == "unvalidated":
+                return rx
             if op in ("Div", "Rem", "Shr"):
                 return rx and ry
             if op == "BitAnd":
@@ -204,7 +210,7 @@ class Analysis:
                 self._ub_guard.discard(key)
         if t0[0] == "bin" and t0[1] in ("Add", "Mul", "Shl", "BitOr"):
             return self.upper_bounded(b, R, block, t0[2], facts, depth + 1) and self.upper_bounded(b, R, block, t0[3], facts, depth + 1)
-        if t0[0] == "bin" and t0[1] == "Sub":
+        if t0[0] == "bin" and t0[1] in ("Sub", "Shr", "Div"):
             return self.upper_bounded(b, R, block, t0[2], facts, depth + 1)
         if t0[0] == "field" or t0[0] in ("downcast", "ref", "deref"):
             return self.upper_bounded(b, R, block, t0[1], facts, depth + 1)
